@@ -6,3 +6,9 @@ then calls the input callback — the order the `sendInput true` model (flush fi
 
 theorem tie_C09_flush_before_callback :
     Generated.sendInputLoop = ["encodeBlock", "flush", "callback"] := by decide
+
+/-- the compressor reuses its output slice on every call: `encodeBlock` may mention that slice in one statement
+only — the one that copies the frame into the output buffer — so that a queued frame can never be overwritten by the
+compression of the next block (C02, C05, C09, C14 all rest on it) -/
+theorem tie_C09_compressed_frame_is_copied :
+    Generated.encodeBlockCompressorUses = ["buf.Buf = append(buf.Buf[:start], c.compressor.Data...)"] := by decide
